@@ -335,7 +335,7 @@ def main(argv):
         "bbolt (the store the values are written to and read from; compared, not verified)",
     ]
     c.assumptions = [
-        "a Go map is modelled by its key-sorted association list (keys are unique); iteration order of range over the map is irrelevant (put_map_order_irrelevant)",
+        "a Go map is modelled by its key-sorted association list (keys are unique); the iteration order of range over the map is irrelevant (theorem put_map_order_irrelevant)",
         "guards of container_roundtrip: supported dynamic types only; map keys non-empty, <= 32768 bytes (bbolt MaxKeySize) and different from the reserved list-size marker key; "
         "values < 2^31-2 bytes; lists shorter than 2^31",
         "compound keys: components of at most 4096 bytes (MaxLinkedSetKeySize) - longer ones are rejected by the encoder",
